@@ -19,5 +19,12 @@ for ln in open(f"/verif/.run/census-{prop}.txt"):
     g["oracles"].add(r.get("oracle"))
     g["paths"].add(r.get("path"))
     g["ex"] = g["ex"] or {k: r.get(k) for k in ("msg", "err", "detail", "info") if r.get(k) is not None}
+maxl = int(sys.argv[3]) if len(sys.argv) > 3 else 40
+shown = 0
 for key, g in sorted(groups.items(), key=lambda x: -x[1]["n"]):
+    if key[-1] is not None:
+        continue
+    shown += 1
+    if shown > maxl:
+        break
     print(f"{g['n']:6d} {key} oracles={sorted(g['oracles'])[:8]} paths={sorted(g['paths'])[:3]} {json.dumps(g['ex'])}"[:width])
